@@ -1,5 +1,7 @@
 import Cfdm.Driver.Parse
 import Cfdm.Model.Sharing
+import Cfdm.Model.SharedProps
+import Cfdm.Model.GroupProps
 /-
 C09 driver.  `C09.wr fields=<enc> tab=<enc> [orders=i+j,j+i,…]` → the dataset the model writes for the
 fields in that order, what the model reads back from it, and the flags of the old (unpatched) code.
@@ -13,6 +15,16 @@ Encoding (no blanks; `_` = None; blanks inside names are `%20`):
   VREFS    owner:datum:term~idx+term~idx , …
   CMS      i0+nname:method , …                          (axis index `i<k>` or free name `n<name>`)
   tab      params~name+name , …
+
+`C09.gp descr=a,b glob=a,b var=a fd=k~v,… fields=F|F|… orders=0+1,1+0` with
+`F = props/ncg[/path/gattrs]` (`props` = k~v,…; `ncg`, `gattrs` = k~_ (flag) or k~v; `path` = g+sub or `_`) → for
+the first order `glob=k~v,… groups=g+sub:k~v,…;… vars=k~v,…|… read=k~v,…|… perm=0/1 old=0/1`: the global
+attributes written (other than Conventions), the attributes of every group that holds a field, the property
+attributes of every data variable and the properties every field is read back with (both in the ORIGINAL numbering
+of the fields, sorted by name, Conventions left out), whether every listed order gives the same globals, group
+attributes and read-back properties, and whether the code as it is (without
+fixes/C09-group-attribute-placement.patch) would do otherwise in some order — then followed by ` OLD glob=… groups=…
+vars=… read=…`, what that code does for the first order.  Names and value tokens are plain identifiers.
 -/
 namespace Cfdm.Driver.C09
 open Cfdm.Driver Cfdm.Sharing
@@ -149,13 +161,14 @@ def showRField (f : RField) : String :=
 def b01 (b : Bool) : String := if b then "1" else "0"
 
 /-- the flags of the code as it is for one order: D1 reader vertical_crs, D2 scalar string cache, D4 blank names,
-D5 dimension reused twice, D8 data variable registered; and the open finding (formula_terms overwritten) -/
+D5 dimension reused twice, D8 data variable registered, D9 unnamed dimension coordinate takes a dimension name in
+use; and the open finding (formula_terms overwritten) -/
 def flagsOf (fs : List AField) (tab : GMTable) : List Bool :=
   let s := writeAll fs
   let r := readAllWith true tab s.file
   let rOld := readAllWith false tab s.file
   [rOld.fields != r.fields, rOld.err, (writeAllOldNames fs).dup, (writeAllOldDims fs).vars != s.vars,
-   (writeAllOldData fs).vars != s.vars, s.ftConflict]
+   (writeAllOldData fs).vars != s.vars, (writeAllOldDimName fs).dup, s.ftConflict]
 
 def orFlags (a b : List Bool) : List Bool := (a.zip b).map (fun p => p.1 || p.2)
 
@@ -174,12 +187,83 @@ def runWr (kv : KV) : String :=
     let fs := orders.headD []
     let s := writeAll fs
     let r := readAllWith true tab s.file
-    let fl := orders.foldl (fun a o => orFlags a (flagsOf o tab)) [false, false, false, false, false, false]
-    s!"ok={b01 s.ok} ft={b01 (fl.getD 5 false)} dup={b01 s.dup} old={join "" ((fl.take 5).map b01)} {showFile s} read={join "|" (r.fields.map showRField)} rerr={b01 r.err}"
+    let fl := orders.foldl (fun a o => orFlags a (flagsOf o tab)) [false, false, false, false, false, false, false]
+    s!"ok={b01 s.ok} ft={b01 (fl.getD 6 false)} dup={b01 s.dup} old={join "" ((fl.take 6).map b01)} {showFile s} read={join "|" (r.fields.map showRField)} rerr={b01 r.err}"
+
+/-! ### properties / global attributes -/
+section GP
+open Cfdm.Globals Cfdm.SharedProps
+
+def parsePair (t : String) : Option (String × Option String) :=
+  match t.splitOn "~" with
+  | [k, v] => if k.isEmpty || v.isEmpty then none else some (k, if v == "_" then none else some v)
+  | _ => none
+
+def parseDict (s : String) : Option (List (String × String)) := do
+  let l ← sepList "," parsePair s
+  l.mapM (fun kv => kv.2.map (fun v => (kv.1, v)))
+
+def parsePath (s : String) : Option (List String) := sepList "+" some s
+
+open Cfdm.GroupProps in
+def parseFieldG (t : String) : Option GField :=
+  match t.splitOn "/" with
+  | [p, g] => do
+    let props ← parseDict p
+    let ncg ← sepList "," parsePair g
+    some { base := { props := props, ncg := ncg } }
+  | [p, g, path, ga] => do
+    let props ← parseDict p
+    let ncg ← sepList "," parsePair g
+    let path ← parsePath path
+    let ga ← sepList "," parsePair ga
+    some { base := { props := props, ncg := ncg }, path := path, gattrs := ga }
+  | _ => none
+
+def showDict (l : List (String × String)) : String :=
+  let l := l.filter (·.1 != "Conventions")
+  let sorted := l.toArray.qsort (fun a b => a.1 < b.1 || (a.1 == b.1 && a.2 < b.2))
+  String.intercalate "," (sorted.toList.map (fun kv => kv.1 ++ "~" ++ kv.2))
+
+open Cfdm.GroupProps in
+def showGroups (l : List (List String × List (String × String))) : String :=
+  let items := l.map (fun g => join "+" g.1 ++ ":" ++ showDict g.2)
+  join ";" (items.toArray.qsort (· < ·)).toList
+
+open Cfdm.GroupProps in
+def runGp (kv : KV) : String :=
+  match (do
+    let descr ← sepList "," some (← kv.get? "descr")
+    let glob ← sepList "," some (← kv.get? "glob")
+    let var ← sepList "," some (← kv.get? "var")
+    let fd ← parseDict (← kv.get? "fd")
+    let fields ← sepList "|" parseFieldG (← kv.get? "fields")
+    let orders ← sepList "," (sepList "+" String.toNat?) (← kv.get? "orders")
+    if fields.isEmpty || orders.isEmpty || !orders.all (fun (o : List Nat) => o.all (· < fields.length) && o.length == fields.length
+        && o.eraseDups.length == o.length) then none
+    else some (descr, glob, var, fd, fields, orders)) with
+  | none => "bad-op"
+  | some (descr, glob, var, fd, fields, orders) =>
+    let o : Opts := { descr := descr, userGlobal := glob, varAttrs := var, fileDesc := fd }
+    let view (patched : Bool) (ord : List Nat) : String × String × String × String :=
+      let fs := ord.filterMap (fields[·]?)
+      (showDict (writtenGlobals o (bases fs)),
+       showGroups (groupsWritten patched o fs),
+       join "|" (fields.map (fun f => showDict (GroupProps.varAttrs patched o fs f))),
+       join "|" (fields.map (fun f => showDict (GroupProps.readBackProps patched o fs f))))
+    let v0 := view true (orders.headD [])
+    let perm := orders.all (fun ord => let v := view true ord; v.1 == v0.1 && v.2.1 == v0.2.1 && v.2.2.2 == v0.2.2.2)
+    let old := orders.any (fun ord => view false ord != view true ord)
+    let w0 := view false (orders.headD [])
+    s!"glob={v0.1} groups={v0.2.1} vars={v0.2.2.1} read={v0.2.2.2} perm={b01 perm} old={b01 old}" ++
+      (if old then s!" OLD glob={w0.1} groups={w0.2.1} vars={w0.2.2.1} read={w0.2.2.2}" else "")
+
+end GP
 
 def run (sub : String) (kv : KV) : String :=
   match sub with
   | "wr" => runWr kv
+  | "gp" => runGp kv
   | _ => "bad-op"
 
 end Cfdm.Driver.C09
